@@ -164,7 +164,51 @@ class HeapExec(DynExec):
             if isg is False or (isinstance(isg, SBool) and smt.entails(st.pc, z3.Not(isg.z))):
                 raise PyExc('AttributeError', 'tokens of a leaf')
             raise OutsideSubset('.tokens of a node that may be a leaf')
+        if isinstance(o, Rec) and o.kind == 'Token' and name not in st.objs[o.oid]:
+            m = self.token_method(o, name, st)
+            if m is not None:
+                return m
         return super().getattr(o, name, st)
+
+    def token_method(self, o, name, st):
+        """method / property lookup on a token record whose class is only known symbolically: resolved over the
+        real class hierarchy of sqlparse.sql; ambiguous names are dispatched on what the path condition knows"""
+        import types
+        from .symex import PropertyCall
+        W = self.W
+        definers = [k for k in list(W.classes) + [W.sql.NameAliasMixin] if name in vars(k)]
+        if not definers:
+            return None
+        fo = st.objs[o.oid]
+        cands = []
+        for k in W.classes:
+            # the class whose MRO provides `name` for an instance of k
+            prov = next((b for b in k.__mro__ if name in vars(b)), None)
+            if prov is None:
+                continue
+            if smt.feasible(st.pc + [fo['CLS'] == W.cls_const[k]]):
+                cands.append(prov)
+        provs = []
+        for p_ in cands:
+            if p_ not in provs:
+                provs.append(p_)
+        if len(provs) != 1:
+            raise OutsideSubset('method %s is provided by several classes for this receiver: %s'
+                                % (name, [p_.__name__ for p_ in provs]))
+        k = provs[0]
+        fn = vars(k)[name]
+        q = '%s.%s.%s' % (k.__module__, k.__qualname__, name)
+        if isinstance(fn, staticmethod):
+            return Func(q, self_val=None)
+        if isinstance(fn, types.FunctionType):
+            return Func(q, self_val=o)
+        if isinstance(fn, property):
+            from . import models
+            r = models.call_repo(self, q, o, [], {}, st)
+            if len(r) != 1:
+                raise OutsideSubset('forking property')
+            return r[0][1]
+        return fn
 
     # ------------------------------------------------------------------ ghost text
     def item_txt(self, st, it):
